@@ -1412,6 +1412,7 @@ fn verif_entry_snap<K, V>(
         entry_addr: (&**entry) as *const ValueEntry<K, V> as usize,
         info_addr: (&**info) as *const EntryInfo<K> as usize,
         weight: info.policy_weight(),
+        accounted: info.accounted_weight(),
         last_accessed: info.last_accessed().map(|t| t.verif_std()),
         last_modified: info.last_modified().map(|t| t.verif_std()),
         dirty: info.is_dirty(),
